@@ -171,6 +171,66 @@ def run(rep, tier, rng):
         elif [R.norm_result(x) for x in r] != [R.norm_result(x) for x in m]:
             rep.violation({"broken": "correspondence Interp (file lookup over time) <-> interpreter.rs", "fields": fields,
                            "implementation": r, "model": m}, no_input=True)
+    # the PROGRAM DIRECTORY may be recorded late, or change: lookups made before it is known (they fail: the working directory
+    # holds nothing), then the directory is recorded (field D) - or a program FILE is run (field E), then another one from another
+    # directory: every lookup uses the directory of the program being run at that moment, whatever was looked up before
+    # (real code only: the model's state has one program directory)
+    valdef = lambda nm, v, deps=(): "(define-library (%s) (import (scheme base) %s) (export %s-val) (begin (define %s-val %d)))" % (
+        nm, " ".join("(%s)" % d for d in deps), nm, nm, v)
+    dcases, dwant = [], {}
+    for j in range(40 if tier == "quick" else 600):
+        names = rng.sample(["one", "two", "lib3", "util", "q"], 3)
+        vals = {nm: rng.randrange(1, 90) for nm in names}
+        fields, want = ["nostd"], []
+        if rng.random() < 0.5:
+            # lookups before the directory is known, of names that do / do not exist under it
+            present = names[:2]
+            for nm in present:
+                fields.append("F%s.sld=%s" % (nm, valdef(nm, vals[nm])))
+            for _ in range(rng.randrange(1, 4)):
+                nm = rng.choice(names + ["missing-zz"])
+                fields.append(">(import (%s))" % nm); want.append("E libNotFound")
+            fields.append("D")
+            for nm in rng.sample(names, 3):
+                fields.append(">(import (scheme base) (%s))" % nm)
+                want.append("N" if nm in present else "E libNotFound")
+            for nm in present:
+                fields.append(">%s-val" % nm); want.append("V i:%d" % vals[nm])
+        else:
+            # two or three program files in different directories, each importing the libraries next to it; a library that lies
+            # only next to ANOTHER program is not found
+            dirs = ["p1", "p2", "sub/p3"][:rng.randrange(2, 4)]
+            owner = {}
+            for k, d in enumerate(dirs):
+                nm = names[k]
+                owner[nm] = d
+                fields.append("F%s/%s.sld=%s" % (d, nm, valdef(nm, vals[nm])))
+                fields.append("F%s/prog.scm=(import (scheme base) (%s))" % (d, nm))
+                other = names[(k + 1) % len(dirs)]
+                fields.append("F%s/other.scm=(import (%s))" % (d, other))
+            order = list(range(len(dirs)))
+            rng.shuffle(order)
+            loaded = set()
+            for k in order:
+                d = dirs[k]
+                if rng.random() < 0.4:
+                    other = names[(k + 1) % len(dirs)]
+                    fields.append("E%s/other.scm" % d)
+                    want.append("N" if other in loaded else "E libNotFound")      # found only if already instantiated
+                fields.append("E%s/prog.scm" % d); want.append("N"); loaded.add(names[k])
+            for nm in loaded:
+                fields.append(">%s-val" % nm); want.append("V i:%d" % vals[nm])
+        cid = "dir%d" % j
+        dcases.append((cid, "libs", fields)); dwant[cid] = want
+    dres = C.run_hx(dcases)
+    for cid, _, fields in dcases:
+        r = dres.get(cid, [])
+        rep.count()
+        rep.nontrivial(("dir", tuple(fields)))
+        got = [x if not x.startswith("E ") else "E " + x.split(" ")[1] for x in r]
+        if got != dwant[cid]:
+            rep.violation({"what": "a library is not looked up next to the program being run (the program directory was recorded late, or another "
+                                   "program was run before)", "fields": fields, "expected": dwant[cid], "implementation": r})
     impl = C.run_hx(cases)
     model = C.run_driver(cases)
     kinds = {}
